@@ -12,6 +12,7 @@ import (
 	"os"
 	"os/exec"
 	"path/filepath"
+	"strconv"
 	"strings"
 	"syscall"
 	"time"
@@ -326,10 +327,6 @@ func c01Process(d *vCtx) error {
 			stdout := &e2eEOFReader{r: pr, eof: make(chan struct{})}
 			var stderr bytes.Buffer
 			cmd.Stderr = &stderr
-			if err := cmd.Start(); err != nil {
-				return err
-			}
-			_ = pw.Close()
 			clientIn := &e2eChanReader{ch: make(chan []byte)}
 			sink := &e2eSink{}
 			f := NewTrzszFilter(clientIn, sink, stdin, stdout, TrzszOptions{TerminalColumns: 100})
@@ -342,6 +339,12 @@ func c01Process(d *vCtx) error {
 			} else {
 				f.SetDefaultDownloadPath(dst)
 			}
+			// the server process starts only now: its trigger must not arrive before the one-time
+			// upload is armed (the filter would open the file chooser instead)
+			if err := cmd.Start(); err != nil {
+				return err
+			}
+			_ = pw.Close()
 			t0 := time.Now()
 			done := make(chan error, 1)
 			go func() { done <- cmd.Wait() }()
@@ -363,11 +366,16 @@ func c01Process(d *vCtx) error {
 			}
 			_ = pr.Close()
 			cok := false
+			cerrText := ""
 			if upload {
 				select {
 				case e := <-upRes:
 					cok = e == nil
+					if e != nil {
+						cerrText = e2eFirstLine(e.Error())
+					}
 				case <-time.After(2 * time.Second):
+					cerrText = "no upload result"
 				}
 			} else {
 				cok = strings.Contains(sink.String(), "Saved")
@@ -392,15 +400,15 @@ func c01Process(d *vCtx) error {
 				"timeout": 20, "fkind": "none", "prehs": false, "files": []any{}}, nil)
 			tr.Emit(map[string]any{"e": "ret", "run": rid, "role": "C", "res": res(cok), "hung": false, "ms": time.Since(t0).Milliseconds(),
 				"since": -1, "told": false, "msg": "", "claims": c01Claims(!upload, shownOK, len(names), len(tops))}, nil)
-			tr.Emit(map[string]any{"e": "ret", "run": rid, "role": "V", "res": res(werr == nil && !hung), "hung": hung,
+			tr.Emit(map[string]any{"e": "ret", "run": rid, "role": "V", "res": res(werr == nil && !hung && shownOK), "hung": hung,
 				"ms": time.Since(t0).Milliseconds(), "since": -1, "told": false, "msg": e2eFirstLine(stderr.String()),
 				"claims": c01Claims(upload, shownOK, len(names), len(tops))}, nil)
 			tr.Emit(map[string]any{"e": "fs", "run": rid, "n": len(entries), "nsame": nsame, "allsame": allSame && len(entries) > 0,
 				"extra": len(extra), "touched": 0, "shown": shownOK, "nshown": len(names), "ntops": len(tops), "npresent": 0, "keptok": true,
-				"verified": 0, "claimsame": allSame && len(entries) > 0, "mutapplied": false, "vmgrow": 0, "pdata": 0, "pkeep": 0, "dataafter": 0, "pausems": 0}, nil)
+				"verified": 0, "claimsame": allSame && len(entries) > 0, "mutapplied": false, "vmgrow": 0, "pdata": 0, "pkeep": 0, "dataafter": 0, "pausems": 0, "npauses": 0}, nil)
 			details = append(details, map[string]any{"case": map[string]any{"id": rid, "opts": map[string]any{"upload": upload, "binary": binary,
 				"directory": directory, "overwrite": overwrite}, "process": true}, "entries": entries, "extra": extra, "shown": names,
-				"server_err": e2eFirstLine(stderr.String()), "client_err": ""})
+				"server_err": e2eFirstLine(stderr.String()), "client_err": cerrText, "terminal": e2eTail(shownText, 700)})
 			close(clientIn.ch)
 			os.RemoveAll(work)
 			d.add("runs", 1)
@@ -419,4 +427,11 @@ func c01Claims(receiver, shownOK bool, nshown, ntops int) int {
 		return nshown
 	}
 	return ntops
+}
+
+func e2eTail(s string, n int) string {
+	if len(s) > n {
+		s = s[len(s)-n:]
+	}
+	return strconv.QuoteToASCII(s)
 }
